@@ -130,6 +130,82 @@ fn use_name<O: Octets + Clone>(what: &str, n: &ParsedName<O>, t: &mut T) -> Case
 }
 
 
+
+/// Reads the derived / computed accessors of a typed record the library
+/// returned ("whatever is returned ... can itself be iterated ... without
+/// failure"): nested iterators, decoded sub-fields, key tags.
+fn poke_accessors<O: AsRef<[u8]> + Octets, N: ToName>(d: &AllRecordData<O, N>) -> CaseResult {
+    use domain::base::iana::Rtype as Rt;
+    match d {
+        AllRecordData::Tsig(t) => {
+            let _ = t.other_time();
+            let _ = t.time_signed();
+            let _ = t.is_valid_at(domain::rdata::tsig::Time48::from_u64(0));
+            let _ = (t.fudge(), t.original_id(), t.error(), t.mac_slice().len());
+        }
+        AllRecordData::Txt(t) => {
+            let mut n = 0usize;
+            for s in t.iter() {
+                n += 1;
+                vensure!(n <= 70_000, "txt-iter-unbounded", "Txt::iter unbounded");
+                let _ = s.len();
+            }
+            let _ = t.try_text::<Vec<u8>>().map(|v| v.len());
+        }
+        AllRecordData::Nsec(n) => {
+            let mut k = 0usize;
+            for t in n.types().iter() {
+                k += 1;
+                vensure!(k <= 70_000, "bitmap-iter-unbounded", "RtypeBitmap::iter unbounded");
+                let _ = n.types().contains(t);
+            }
+            let _ = n.types().contains(Rt::A);
+        }
+        AllRecordData::Nsec3(n) => {
+            let mut k = 0usize;
+            for _ in n.types().iter() {
+                k += 1;
+                vensure!(k <= 70_000, "bitmap-iter-unbounded", "RtypeBitmap::iter unbounded");
+            }
+            let _ = (n.opt_out(), n.iterations(), n.salt().as_slice().len(), n.next_owner().as_slice().len());
+        }
+        AllRecordData::Dnskey(k) => {
+            let _ = (k.key_tag(), k.is_zone_key(), k.is_secure_entry_point(), k.is_revoked());
+        }
+        AllRecordData::Cdnskey(k) => {
+            let _ = (k.flags(), k.protocol(), k.algorithm());
+        }
+        AllRecordData::Rrsig(r) => {
+            let _ = (r.type_covered(), r.labels(), r.original_ttl(), r.expiration().into_int(), r.inception().into_int(), r.key_tag());
+        }
+        AllRecordData::Svcb(sv) => {
+            let mut k = 0usize;
+            for v in sv.params().iter::<domain::rdata::svcb::value::AllValues<_>>() {
+                k += 1;
+                vensure!(k <= 70_000, "svcparams-iter-unbounded", "SvcParams::iter unbounded");
+                if let Ok(v) = v {
+                    let _ = show("svc-value", &v)?;
+                }
+            }
+        }
+        AllRecordData::Https(sv) => {
+            let mut k = 0usize;
+            for v in sv.params().iter::<domain::rdata::svcb::value::AllValues<_>>() {
+                k += 1;
+                vensure!(k <= 70_000, "svcparams-iter-unbounded", "SvcParams::iter unbounded");
+                if let Ok(v) = v {
+                    let _ = show("svc-value", &v)?;
+                }
+            }
+        }
+        AllRecordData::Caa(c) => {
+            let _ = (c.flags(), show("caa-tag", c.tag())?.len(), c.value().as_ref().len());
+        }
+        _ => {}
+    }
+    Ok(())
+}
+
 /// Operations on a name derived from a returned name.
 fn derived<O: Octets>(what: &str, how: &str, d: &ParsedName<O>, want_wire: &[u8]) -> CaseResult {
     let _ = d.first();
@@ -225,6 +301,7 @@ fn section<'a>(
                         t.push(format!("  any=OK {}", &s[..s.len().min(200)]));
                         let _ = hash_of(rec);
                         let _ = rec == rec; /* reflexivity is C04's business */
+                        poke_accessors(rec.data())?;
                         let _ = rec.partial_cmp(rec);
                         if heavy || count <= 12 {
                             for k in [DisplayKind::Simple, DisplayKind::Tabbed, DisplayKind::Multiline] {
@@ -676,8 +753,23 @@ fn run_rdata(data: &[u8], ctx: &mut Ctx) -> CaseResult {
     let mut a = wire::Asm::new(u16_(&mut u), 0x8180);
     a.question(&pool[0], 255, 1);
     for _ in 0..1 + pick(&mut u, 3) {
-        let rtype = rr::ALL_TYPES[pick(&mut u, rr::ALL_TYPES.len())];
+        let rtype = if chance(&mut u, 12) { rr::TSIG } else { rr::ALL_TYPES[pick(&mut u, rr::ALL_TYPES.len())] };
         let mut rd = crate::gen::rdata::rdata(&mut u, rtype, &pool, Default::default());
+        if rtype == rr::TSIG && chance(&mut u, 200) {
+            // crafted TSIG: every error code that gives the other-data a
+            // meaning, with other-data lengths around the 6 octets it expects
+            rd = gn::to_wire(&vec![b"hmac-sha256".to_vec()]);
+            rd.extend_from_slice(&u64_(&mut u).to_be_bytes()[2..]);
+            rd.extend_from_slice(&300u16.to_be_bytes());
+            let mac: Vec<u8> = (0..pick(&mut u, 40)).map(|_| byte(&mut u)).collect();
+            rd.extend_from_slice(&(mac.len() as u16).to_be_bytes());
+            rd.extend(mac);
+            rd.extend_from_slice(&u16_(&mut u).to_be_bytes());
+            rd.extend_from_slice(&(pickb(&mut u, &[0, 16, 17, 18, 18, 18, 22, 1]) as u16).to_be_bytes());
+            let other: Vec<u8> = (0..pick(&mut u, 10)).map(|_| byte(&mut u)).collect();
+            rd.extend_from_slice(&(other.len() as u16).to_be_bytes());
+            rd.extend(other);
+        }
         for _ in 0..pick(&mut u, 4) {
             if rd.is_empty() { break; }
             let i = pick(&mut u, rd.len());
